@@ -118,6 +118,20 @@ for rnd, sub in (("h", "hunt"), ("i (second hunt, on the tree repaired after rou
             out.append(f"| {k} | {esc(f.get('confidence', '?'))[:12]} | {esc(f['mechanism'])[:260]} | **{esc(dv[0])}** - {esc(dv[1])} |")
     out.append("\n" + ", ".join(f"{v} {k}" for k, v in sorted(cnt.items())) + (f"; no finding at all for {', '.join(none)}" if none else "") + ".\n")
 
+out.append("## 13. What the committed evidence files record (quick tier, seed 0, this machine)\n")
+out.append("Budgets in the summary table of section 0 are the design-time estimates; these are the measured figures of the last run of every check "
+           "in /verif (16 worker processes). The thorough tier multiplies the random parts by 25-60 and raises the exhaustive bounds by one.\n")
+out.append("| check | wall time | monitor evaluations | cases | distinct non-trivial cases | abstract states | known findings reproduced |")
+out.append("|---|---|---|---|---|---|---|")
+for i in range(1, 21):
+    ep = os.path.join(HERE, "evidence", "C%02d.json" % i)
+    if not os.path.exists(ep):
+        continue
+    e = json.load(open(ep))
+    c = e["coverage"]
+    out.append(f"| C{i:02d} | {e.get('wall_s')} s | {c.get('evaluations')} | {c.get('cases')} | {c.get('distinct_nontrivial')} | {c.get('abstract_states_observed')} | {len(c.get('known_findings_reproduced') or [])} |")
+out.append("")
+
 text = "\n".join(out)
 dp = os.path.join(HERE, "DESIGN.md")
 s = open(dp).read()
